@@ -8,9 +8,6 @@ normalisation, `unescape` — reads from a start tag is what `start_of` / `attr_
 namespace S3V.Xml
 open S3V
 
-/-- an attribute name the iterator reads back as written: not empty, no `=`, no white space -/
-def keyPlain (k : Bytes) : Bool := !k.isEmpty && k.all (fun c => !(c = 61 || isWs c))
-
 /-- a (key, raw value) pair that `start_of` can write so that the iterator reads it back -/
 def PairOk (kv : Bytes × Bytes) : Prop := keyPlain kv.1 = true ∧ ∀ c ∈ kv.2, c ≠ cQuot
 
@@ -42,36 +39,6 @@ theorem nsAttr_eq (ns : Option Bytes) : nsAttr ns = attrsOf (nsPairsOf ns) := by
 /-- pairs in front of the attributes of a value (`content_with_ns`: the `xmlns` attribute): well-formed, and named
 `xmlns` -/
 def NsPairs (ps : List (Bytes × Bytes)) : Prop := ∀ kv ∈ ps, PairOk kv ∧ kv.1 = xmlnsKey
-
-/-- one step of the iterator over ` key="value"` followed by anything -/
-theorem attrNext_seg (k v rest : Bytes) (hk : keyPlain k = true) (hv : ∀ c ∈ v, c ≠ cQuot) :
-    attrNext (attrSeg k v ++ rest) = some (some (k, v, rest)) := by
-  cases k with
-  | nil => simp [keyPlain] at hk
-  | cons c0 kt =>
-    simp only [keyPlain, List.isEmpty_cons, Bool.not_false, Bool.true_and, List.all_cons, Bool.and_eq_true,
-      List.all_eq_true] at hk
-    obtain ⟨hc0, hkt⟩ := hk
-    have hws0 : isWs c0 = false := by
-      cases hw : isWs c0 with
-      | false => rfl
-      | true => simp [hw] at hc0
-    have hseg : attrSeg (c0 :: kt) v ++ rest = 32 :: c0 :: (kt ++ (61 :: 34 :: (v ++ 34 :: rest))) := by
-      simp [attrSeg]
-    have htw : (kt ++ (61 :: 34 :: (v ++ 34 :: rest))).takeWhile (fun c => !(c = 61 || isWs c)) = kt := by
-      rw [List.takeWhile_append_of_pos (fun c hc => hkt c hc)]
-      simp [List.takeWhile]
-    have hsplit : splitAtByte 34 (v ++ 34 :: rest) = some (v, rest) := splitAtByte_hit 34 v rest hv
-    rw [hseg]
-    unfold attrNext
-    have hdw : (32 :: c0 :: (kt ++ (61 :: 34 :: (v ++ 34 :: rest)))).dropWhile isWs
-        = c0 :: (kt ++ (61 :: 34 :: (v ++ 34 :: rest))) := by
-      rw [List.dropWhile_cons_of_pos (by decide), List.dropWhile_cons_of_neg (by simp [hws0])]
-    rw [hdw]
-    simp only [htw, List.drop_left']
-    simp [List.dropWhile, isWs, cQuot, hsplit]
-
-theorem attrSeg_length_pos (k v : Bytes) : 0 < (attrSeg k v).length := by simp [attrSeg]
 
 /-- `try_get_attribute(name)` over what `start_of` wrote: the raw value of the first pair with that key -/
 theorem attrFind_written (name : Bytes) : ∀ (ps : List (Bytes × Bytes)) (fuel : Nat), (∀ kv ∈ ps, PairOk kv) →
